@@ -5,6 +5,7 @@ Property theorems (namespace `P2.C17`) about the poll-level transition system of
 = lagged), close and scheduled polls — any finite schedule, any channel capacity.
 -/
 import P2.Model.EphSub
+import P2.Extracted.C17
 
 namespace P2.C17
 open P2.EphSub
@@ -354,6 +355,21 @@ theorem c17_orig_violates_lagged :
   refine ⟨{ cap := 1, queue := [.valid 1], lag := false, closed := false, wakerSet := false,
             scheduled := false, done := false, yielded := [], polls := 1, wakes := 0 }, by decide, ?_, rfl⟩
   exact ⟨⟨rfl, rfl⟩, by decide⟩
+
+/-! ### tie to the source text (regenerated from /repo on every run by props/C17_extract.py) -/
+
+/-- The control-flow shape of the current `poll_next` is the one `pollCore` models: an unbounded `loop`
+    whose only exits are `ready!` of the inner stream's poll (inner `Pending`: waker registered), the yield of
+    a valid message and the end of the stream — no hand-written `Poll::Pending`, no `break`, no skip budget
+    (`for`/`while` head), nothing after the loop, no manual wake. -/
+theorem c17_loop_shape :
+    P2.Extracted.C17.loopHead = "loop" ∧ P2.Extracted.C17.afterLoop = "" ∧
+    P2.Extracted.C17.pendingCount = 0 ∧ P2.Extracted.C17.readyMacroCount = 1 ∧
+    P2.Extracted.C17.innerPolled = "self.inner.poll_next_unpin(cx)" ∧
+    P2.Extracted.C17.wakeCalls = 0 ∧ P2.Extracted.C17.breakCount = 0 ∧
+    P2.Extracted.C17.returnsInLoop =
+      ["Poll::Ready(Some(EphemeralMessage{topic:self.topic,inner:wrapped,}))", "Poll::Ready(None)"] := by
+  decide
 
 /-! ### non-vacuity: the same schedules on the repaired system -/
 
